@@ -361,7 +361,7 @@ example :
     The block side of `Headers.lean` never reads the header-only index entries, as in the code
     (`blockExists`/`HaveBlock` look at the data flag); the driver additionally runs C02's
     `ChainCore` (one index holding header entries too) on every generated history and flags any
-    disagreement.  Not modelled: the orphan pool bound of 100 and the one-hour orphan expiry. -/
+    disagreement.  Not modelled: the one-hour orphan expiry (wall clock). -/
 theorem headers_then_blocks_same_tip (e : HF.Env) (ops : List HF.Op) :
     (HF.run e {} ops).b = (HF.run e {} (ops.filter HF.Op.isBlock)).b :=
   HF.run_blocks_only e ops {}
